@@ -66,7 +66,7 @@ PROPS = {
         "technique": T_R2 + "; " + T_R3,
     },
     "C02": {
-        "clauses": [fam("Mul"), signed("Mul"), both(r3.check_underflow_asserts), r3.check_add2_carry_used, r8.check_cost, r5check.check_arithmetic({"Mul"}, 15)],
+        "clauses": [fam("Mul"), signed("Mul"), both(r3.check_underflow_asserts), r3.check_add2_carry_used, r8.check_cost_general, r5check.check_arithmetic({"Mul"}, 15)],
         "not_decided": "temporary sizing, the Karatsuba/Toom-3 algebra, mac_with_carry arithmetic, the power-of-two shortcut (all value-level)",
         "level_text": "Decides: all Mul operator forms forward with operands in either order only because * is commutative, or are reviewed implementations; the carry-overflow "
         "assertion of mac_digit is mandatory in release builds and tests the carry returned by __add2; no call site drops a carry; the regime dispatch has a "
@@ -220,7 +220,7 @@ PROPS = {
         "technique": "abstract interpretation of MIR over the sign domain {-,0,+} with polynomial result terms, compared by normal form with oracle tables written from the definitions",
     },
     "C20": {
-        "clauses": [r8.check_cost],
+        "clauses": [r8.check_cost_general],
         "not_decided": "constant factors of the linear work (additions, allocation), measured operation counts, wall-clock time",
         "level_text": "Decides the property's inequalities on the work recurrence that the code implies: regime thresholds (32, 256), the 2|x| <= |y| rule and the number of "
         "recursive products per regime (2, 3, 5; maximum over CFG paths, recursion found through the call graph) are read from mac3's MIR and instantiate "
